@@ -168,7 +168,7 @@ def instances(formulas, opts=None):
         if opts.get("unfold_first", False):
             first = sd.fn(z3.simplify(lo + 1), hi, *args)
             out.append(z3.Implies(hi > lo, e == sd.body_at(lo, args) + first))
-    if opts.get("ext", True) and len(sig_apps) <= 40:
+    if opts.get("ext", True) and len(sig_apps) <= opts.get("ext_limit", 40):
         for (sd1, e1), (sd2, e2) in itertools.combinations(sig_apps, 2):
             if e1.sort() != e2.sort():
                 continue
